@@ -105,7 +105,13 @@ func (r *runner) newSessRequestMsg(rid int, kind int) p9p.Message {
 	case 0:
 		return p9p.MessageTclunk{Fid: f}
 	case 1:
-		return p9p.MessageTread{Fid: f, Offset: uint64(g.Intn(1 << 20)), Count: uint32(1 + g.Intn(96))}
+		// every 4th read asks for zero bytes: the session must still be asked (it may answer with an
+		// error: unknown fid, bad offset ...)
+		count := uint32(1 + g.Intn(96))
+		if g.Intn(4) == 0 {
+			count = 0
+		}
+		return p9p.MessageTread{Fid: f, Offset: uint64(g.Intn(1 << 20)), Count: count}
 	case 2:
 		return p9p.MessageTwrite{Fid: f, Offset: g.U64() >> uint(1+g.Intn(63)), Data: g.Bytes(g.Intn(40))}
 	case 3:
@@ -135,7 +141,16 @@ func (r *runner) newSessRequestMsg(rid int, kind int) p9p.Message {
 // the values the Session method returns for request q, and the reply the property prescribes for them
 func (r *runner) newSessResult(q *req, honourCancel bool) (hresult, sx.S, []byte) {
 	g := r.rng
-	if honourCancel || g.Intn(10) >= 6 {
+	degenerate := false // zero-count read, zero-length write, walk without names: mostly answered by an error
+	switch t := q.msg.(type) {
+	case p9p.MessageTread:
+		degenerate = t.Count == 0
+	case p9p.MessageTwrite:
+		degenerate = len(t.Data) == 0
+	case p9p.MessageTwalk:
+		degenerate = len(t.Wnames) == 0
+	}
+	if honourCancel || g.Intn(10) >= 6 || (degenerate && g.Intn(4) != 0) {
 		e, s, pb := r.newErr(honourCancel)
 		return hresult{err: e}, s, pb
 	}
